@@ -1115,10 +1115,75 @@ def run(ctx):
                               'case generator harness/lib/cvgen.py, signatures harness/lib/cvsig.py / cvcheck.py, header parsing in harness/props/c05.py',
                               'the large-input half has no oracle: it is a metamorphic test of the implementation against itself'])
 
+def model_find_mnvs(recs, K):
+    """Mnv.find_mnvs of coq/Model/Mnv.v transcribed: levels by iterated extension, every chain of 2 .. K records"""
+    cls = {'SNV': 0, 'RNAEditingSite': 0, 'INDEL': 1}
+    def extend(c0, comb):
+        it = comb[-1]
+        out = []
+        if it >= len(recs) - 1:
+            return out
+        end_t = recs[it][1]
+        for j in range(it + 1, len(recs)):
+            s, t = recs[j][0], recs[j][4]
+            if t not in cls or s < end_t:
+                continue
+            if s > end_t:
+                break
+            if cls[t] == c0:
+                out.append(comb + [j])
+        return out
+    res = []
+    for i, r in enumerate(recs):
+        if r[4] not in cls:
+            continue
+        level = [[i]]
+        for _ in range(max(0, K - 1)):
+            level = [c for comb in level for c in extend(cls[r[4]], comb)]
+            for c in level:
+                m = [recs[x] for x in c]
+                res.append([m[0][0], m[-1][1], ''.join(x[2] for x in m), ''.join(x[3] for x in m), [x[5] for x in m]])
+    return res
+
+def mnv_disagreement(rng, n=3000):
+    """find_mnvs_from_adjacent_variants of the checked-out source against Model/Mnv.v on small dense record lists
+    (mostly sorted by start as callVariant passes them, some not)"""
+    cases = []
+    for _ in range(n):
+        recs = []
+        for q in range(rng.randint(2, 6)):
+            t = rng.choice(['SNV', 'SNV', 'SNV', 'RNAEditingSite', 'INDEL', 'INDEL', 'MNV', 'Deletion'])
+            s = rng.randint(0, 6)
+            if t in ('SNV', 'RNAEditingSite'):
+                ref, alt = rng.choice('ACGT'), rng.choice('ACGT')
+            elif t == 'INDEL':
+                ref = ''.join(rng.choice('ACGT') for _ in range(rng.choice([1, 1, 2, 3])))
+                alt = ref[0] + ''.join(rng.choice('ACGT') for _ in range(rng.randint(1, 2))) if len(ref) == 1 else ref[0]
+            else:
+                ref = ''.join(rng.choice('ACGT') for _ in range(2)); alt = ''.join(rng.choice('ACGT') for _ in range(2))
+            recs.append([s, s + len(ref), ref, alt, t, 'v%d' % q])
+        if rng.random() < 0.8:
+            recs.sort(key=lambda r: r[0])
+        cases.append({'records': recs, 'K': rng.choice([1, 2, 2, 3, 3, 4])})
+    cases.sort(key=lambda c: len(c['records']))
+    for c, a in zip(cases, I.run_cases('py2coq_mnv', cases, jobs=4, tag='c05m')):
+        want = model_find_mnvs(c['records'], c['K'])
+        if a != want:
+            return {'kind': 'mnv', 'case': c, 'impl': a, 'model': want,
+                    'what': 'find_mnvs_from_adjacent_variants(max_adjacent_as_mnv=%d) on %s: implementation %s, model %s' % (
+                        c['K'], c['records'], str(a)[:300], str(want)[:300])}
+    return None
+
 def search_failing_input(ctx, broken):
     """a theorem of Props/C05.v no longer checks (e.g. a regenerated rule table changed the computed
     witnesses): look for a concrete pair of runs on which the implementation violates the property"""
     global sizes
+    if 'mnv' in str(broken.get('theorem') or '') + str(broken.get('why') or ''):
+        import random
+        # docs/py2coq.md target 27: first the two functions themselves on bare records against the model
+        r = mnv_disagreement(random.Random(ctx.seed * 1000003 + 27))
+        if r:
+            return r
     old = sizes
     sizes = lambda ctx: dict(small=30, dense=20, nested=30, allkinds=10, excon=0, circ=10, large=0, adjacent=30)
     try:
@@ -1131,6 +1196,10 @@ def search_failing_input(ctx, broken):
     return None
 
 def replay(ctx, obj):
+    if obj.get('kind') == 'mnv':
+        a = I.run_cases('py2coq_mnv', [obj['case']], jobs=1, tag='c05m')[0]
+        ok = a == model_find_mnvs(obj['case']['records'], obj['case']['K'])
+        return dict(violations=[] if ok else [{'what': obj.get('what', ''), 'replay_obj': obj}])
     c = obj['case']
     c.setdefault('stream', 'replay')
     if 'files' not in c:
